@@ -113,6 +113,31 @@ def enabledLoop : (fuel buf : Nat) → List Nat → List Wr → List Nat → σ 
         | none => ⟨.starved, fr, ws, ds, s⟩
         | some (d, s') => enabledLoop f (buf - wr) fr (ws ++ [⟨wr, none⟩]) (ds ++ [d]) s'
 
+/-- what one iteration of the paranoid loop does once the length sample `t` is drawn -/
+inductive Step where
+  | resample                                        -- (post-fix) `targetLen == 0`: draw again
+  | grow (buf' : Nat) (fs : List Nat)               -- padded with two frames, `continue`
+  | emit (buf' : Nat) (fs : List Nat) (wr : Nat)    -- (padded with `fs` and) `Conn.Write` of `wr` bytes
+  | panic (p : Panic)
+deriving DecidableEq, Repr
+
+/-- `iatWrLen = frameBuf.Read(iatFrame[:targetLen])`, then the `iatWrLen == 0` BUG check -/
+def emitOf (buf : Nat) (fs : List Nat) (t : Nat) : Step :=
+  let wr := min buf t
+  if wr == 0 then .panic .iatZero else .emit (buf - wr) fs wr
+
+/-- the body of `case iatParanoid:` for a buffer of `buf > 0` bytes and the sample `t` -/
+def paranoidStep (fixed : Bool) (buf t : Nat) : Step :=
+  if fixed && t == 0 then .resample
+  else if buf < t then
+    -- not enough data buffered for the target write: pad
+    match padBurst buf t with
+    | .error p => .panic p
+    | .ok fs =>
+      if buf + fs.sum != t then .grow (buf + fs.sum) fs   -- "padding came out to … more than one frame … resample"
+      else emitOf (buf + fs.sum) fs t
+  else emitOf buf [] t
+
 /-- `iatParanoid`: sample a length for every write -/
 def paranoidLoop (fixed : Bool) : (fuel buf : Nat) → List Nat → List Wr → List Nat → σ → Out σ
   | 0, _, fr, ws, ds, s => ⟨.starved, fr, ws, ds, s⟩
@@ -121,27 +146,14 @@ def paranoidLoop (fixed : Bool) : (fuel buf : Nat) → List Nat → List Wr → 
     else match S.len s with
       | none => ⟨.starved, fr, ws, ds, s⟩
       | some (t, s1) =>
-        if fixed && t == 0 then
-          -- fix of F2: a zero length is not a usable write size, resample
-          paranoidLoop fixed f buf fr ws ds s1
-        else
-          -- `if frameBuf.Len() < targetLen { padBurst; if frameBuf.Len() != targetLen { continue } }`
-          let padded : Except Panic (Nat × List Nat × Bool) :=
-            if buf < t then
-              match padBurst buf t with
-              | .error p => .error p
-              | .ok fs => .ok (buf + fs.sum, fr ++ fs, buf + fs.sum != t)
-            else .ok (buf, fr, false)
-          match padded with
-          | .error p => ⟨.panic p, fr, ws, ds, s1⟩
-          | .ok (buf', fr', true) => paranoidLoop fixed f buf' fr' ws ds s1   -- `continue`
-          | .ok (buf', fr', false) =>
-            let wr := min buf' t      -- `frameBuf.Read(iatFrame[:targetLen])`
-            if wr == 0 then ⟨.panic .iatZero, fr', ws, ds, s1⟩
-            else match S.iat s1 with
-              | none => ⟨.starved, fr', ws, ds, s1⟩
-              | some (d, s2) =>
-                paranoidLoop fixed f (buf' - wr) fr' (ws ++ [⟨wr, some t⟩]) (ds ++ [d]) s2
+        match paranoidStep fixed buf t with
+        | .resample => paranoidLoop fixed f buf fr ws ds s1
+        | .grow buf' fs => paranoidLoop fixed f buf' (fr ++ fs) ws ds s1
+        | .panic p => ⟨.panic p, fr, ws, ds, s1⟩
+        | .emit buf' fs wr =>
+          match S.iat s1 with
+          | none => ⟨.starved, fr ++ fs, ws, ds, s1⟩
+          | some (d, s2) => paranoidLoop fixed f buf' (fr ++ fs) (ws ++ [⟨wr, some t⟩]) (ds ++ [d]) s2
 
 /-- `obfs4Conn.Write(b)` with `len(b) = n`; `fuel` bounds the iterations of the IAT loops -/
 def write (fixed : Bool) (iatMode n fuel : Nat) (s : σ) : Out σ :=
